@@ -1,6 +1,7 @@
 package mon
 
 import (
+	"encoding/hex"
 	"fmt"
 	"math/rand/v2"
 	"regexp"
@@ -1133,6 +1134,62 @@ var c14CoreSubjects = []string{"", "a", "aaa", "ab", "ba", "Ã©", "aÃ©æ—¥b", "ðŸ˜
 
 func c14P(s string) *string { return &s }
 
+// ---- strings that are not valid UTF-8 (they reach a query through @base64d, --arg, -R, or a Go caller) ----
+//
+// Whatever an undecodable byte counts as, every position-bearing builtin has to count it the same way.
+
+type c14Bytes struct {
+	Hex string // the subject's bytes
+}
+
+const c14BytesLaws = `. as $s | length as $n | [
+	($n == (explode | length)),
+	($n == ([match("(?s)."; "g")] | length)),
+	([range(0; $n + 1) as $i | ($s[:$i] + $s[$i:]) == $s] | all),
+	([range(0; $n + 1) as $i | range($i; $n + 1) as $j | ($s[$i:$j] | length) == $j - $i] | all),
+	(utf8bytelength >= $n),
+	([match("(?s)."; "g") | (.offset as $o | .length as $l | $s[$o:$o + $l] == .string)] | all),
+	([range(0; $n) as $i | $s[$i:] | length] == [range($n; 0; -1)]),
+	(($s + "x" | length) == $n + 1), ((["a", $s, "b"] | add | index("b")) == $n + 1), (($s + "b" | rindex("b")) == $n), (($s + "|b" | [splits("\\|")] | .[0] | length) == $n), (($s + "|" | sub("\\|$"; "") | length) == $n)
+]`
+
+var c14BytesCode = sync.OnceValue(func() *gojq.Code {
+	res := run.Compile(c14BytesLaws)
+	if res.Code == nil {
+		panic(fmt.Sprintf("c14: %v %s", res.Err, res.Panic))
+	}
+	return res.Code
+})
+
+var kC14Bytes = run.NewKind("c14.invalid-utf8", func(c *run.Ctx, t c14Bytes) *run.Fail {
+	b, err := hex.DecodeString(t.Hex)
+	if err != nil {
+		return run.Failf("bad case")
+	}
+	subj := string(b)
+	tr := run.RunCode(c14BytesCode(), subj, nil, 400000, 0)
+	if tr.End == run.EndBudget {
+		c.Inconclusive("budget")
+		return nil
+	}
+	if tr.End != run.EndOK || len(tr.Vals) != 1 {
+		return run.Failf("position laws on the bytes %q: %s", subj, run.TraceDesc(tr))
+	}
+	res, _ := tr.Vals[0].([]any)
+	names := []string{"length == explode|length", "length == number of matches of .", ".[:i] + .[i:] == .", "(.[i:j] | length) == j - i", "utf8bytelength >= length", "slicing by a match's (offset, length) gives its string", "suffix lengths count down", "appending one character adds one",
+		"index of a character behind the subject", "rindex behind the subject", "first piece of splits", "sub at the end"}
+	for i, ok := range res {
+		if ok != true {
+			return run.Failf("string with the bytes %q (not valid UTF-8): law %q does not hold (%s)", subj, names[min(i, len(names)-1)], run.Canon(tr.Vals[0]))
+		}
+	}
+	if !utf8.ValidString(subj) {
+		c.Nontrivial("bytes|" + t.Hex)
+		c.Count("invalid_utf8_subjects", 1)
+	}
+	return nil
+})
+
 func init() {
 	run.Register(&run.Prop{
 		ID: "C14", Level: "exploration", MinNontrivial: 20000,
@@ -1143,6 +1200,21 @@ func init() {
 			"non-termination inside a native function that never polls the context would show as a worker hang (inconclusive), not as a budget violation",
 		},
 		Body: func(c *run.Ctx) {
+			// every byte string up to length 3 (quick) / 4 over bytes of every UTF-8 role
+			{
+				alpha := []string{"a", "\x80", "\xbf", "\xc3", "\xe3", "\x81", "\xf0", "\x9f", "\xff", "\xc3\xa9", "\xed", "\xa0", "\xf4", "\x90", "\xc0", "\xef\xbf\xbd"}
+				var rec func(prefix string, d int)
+				rec = func(prefix string, d int) {
+					kC14Bytes.Do(c, c14Bytes{Hex: hex.EncodeToString([]byte(prefix))})
+					if d == 0 {
+						return
+					}
+					for _, a := range alpha {
+						rec(prefix+a, d-1)
+					}
+				}
+				rec("", c.N(3, 4))
+			}
 			subjects := c14Subjects4()
 			c.Gauge("exhaustive_subjects_len4", 1)
 			c.Gauge("subjects_len4", int64(len(subjects)))
